@@ -697,13 +697,24 @@ func (w *C11World) finalRules(mk func(rule, sig, d string) *Violation) {
 			}
 		}
 		// (d) a request reaches a server again only if every earlier attempt was disclaimed
-		for j := 1; j < len(at); j++ {
-			for _, e := range at[:j] {
-				if e.disclaimed == "" {
-					mk("replayed-undisclaimed", "replayed-undisclaimed/answered="+itoa(e.answered),
-						fmt.Sprintf("request %d was sent again (connection %d stream %d) although its earlier attempt on connection %d stream %d was neither refused nor above a GOAWAY's last-stream-id: the server may have processed it", t, at[j].conn, at[j].stream, e.conn, e.stream))
-				}
+		// Attempts are listed in the order in which they reached their servers, which need not be the order in which the
+		// client sent them (a link may deliver late: seen once in 37 000 runs of the thorough tier, a disclaimed attempt
+		// arriving after the retry it had caused). Two attempts that were both left standing are a violation in either
+		// order; one standing attempt next to disclaimed ones is what a correct client produces.
+		var standing []*c11Attempt
+		for _, e := range at {
+			if e.disclaimed == "" {
+				standing = append(standing, e)
 			}
+		}
+		if len(standing) >= 2 {
+			e, f := standing[0], standing[1]
+			mk("replayed-undisclaimed", "replayed-undisclaimed/answered="+itoa(e.answered),
+				fmt.Sprintf("request %d reached a server twice (connection %d stream %d and connection %d stream %d) and neither attempt was refused or above a GOAWAY's last-stream-id: the server may have processed it twice", t, e.conn, e.stream, f.conn, f.stream))
+		}
+		if len(standing) == 1 && standing[0] != at[len(at)-1] {
+			// the one attempt the server has not disclaimed is the one the answer rules below are about
+			at = append(append([]*c11Attempt{}, at...), standing[0])
 		}
 		if t < 0 || t >= len(w.callers) {
 			continue
